@@ -23,16 +23,16 @@ def PropObj.cfg (o : PropObj T R) (p ap : Nat) : PropObj T R := { o with channel
 /-- the state of a propagator that was constructed as `o0` in the heap `h0` (content of its distances: `dists`) and has since seen calls,
     against the configuration `g` of the reference semantics: the attributes are those of `o0` except for the two a user can replace; the
     invariant holds; the caller's objects of `h0` are as they were -/
-def PRel (E : PropOps T R) (o0 : PropObj T R) (dists : T) (h0 : Heap T) (s : PropagatorSelf T R × Heap T) (g : PRef T) : Prop :=
+def PRel (E : PropOps T R) (o0 : PropObj T R) (dists : T) (h0 : Heap T) (s : PropagatorAttrs T R × Heap T) (g : PRef T) : Prop :=
   ∃ apl cp, s.1 = (o0.cfg g.powers apl).toSelf ∧ PInv E (o0.cfg g.powers apl) s.2 dists g.ap cp ∧ h0.get g.powers = some cp ∧
     h0.size ≤ s.2.size ∧ ∀ l, l < h0.size → l ≠ o0.kernels → l ≠ o0.generated_kernels → s.2.get l = h0.get l
 
 /-- no object that exists is written, except the two cache buffers -/
-def PFrame (o0 : PropObj T R) (s s' : PropagatorSelf T R × Heap T) : Prop :=
+def PFrame (o0 : PropObj T R) (s s' : PropagatorAttrs T R × Heap T) : Prop :=
   s.2.size ≤ s'.2.size ∧ ∀ l, l < s.2.size → l ≠ o0.kernels → l ≠ o0.generated_kernels → s'.2.get l = s.2.get l
 
-theorem PFrame.refl (o0 : PropObj T R) (s : PropagatorSelf T R × Heap T) : PFrame o0 s s := ⟨Nat.le_refl _, fun _ _ _ _ => rfl⟩
-theorem PFrame.trans {o0 : PropObj T R} {a b c : PropagatorSelf T R × Heap T} (x : PFrame o0 a b) (y : PFrame o0 b c) : PFrame o0 a c :=
+theorem PFrame.refl (o0 : PropObj T R) (s : PropagatorAttrs T R × Heap T) : PFrame o0 s s := ⟨Nat.le_refl _, fun _ _ _ _ => rfl⟩
+theorem PFrame.trans {o0 : PropObj T R} {a b c : PropagatorAttrs T R × Heap T} (x : PFrame o0 a b) (y : PFrame o0 b c) : PFrame o0 a c :=
   ⟨Nat.le_trans x.1 y.1, fun l hl h1 h2 => by rw [y.2 l (Nat.lt_of_lt_of_le hl x.1) h1 h2, x.2 l hl h1 h2]⟩
 
 /-- the laser powers a user may pass: an object of the caller that existed when the propagator was built, none of its cache buffers -/
@@ -42,7 +42,7 @@ def PCall.valid (o0 : PropObj T R) (h0 : Heap T) : PCall T → Prop
 
 /-- **one call** -/
 theorem propagator_step (E : PropOps T R) (L : PropLaws E) (o0 : PropObj T R) (dists : T) (h0 : Heap T)
-    (s : PropagatorSelf T R × Heap T) (g : PRef T) (x : PCall T) (g' : PRef T) (z : List T)
+    (s : PropagatorAttrs T R × Heap T) (g : PRef T) (x : PCall T) (g' : PRef T) (z : List T)
     (hr : PRel E o0 dists h0 s g) (hv : x.valid o0 h0) (href : pRefStep E o0 dists h0 g x = some (g', z)) :
     ∃ s' y, pStep E s x = some (s', y) ∧ y.vals = z ∧ PRel E o0 dists h0 s' g' ∧ PFrame o0 s s' := by
   obtain ⟨self1, heap1⟩ := s
@@ -143,7 +143,7 @@ theorem propagator_step (E : PropOps T R) (L : PropLaws E) (o0 : PropObj T R) (d
     order and of any length: if the reference semantics (no cache) gives values `zs`, the object returns exactly `zs`, the invariant holds
     afterwards, and no object that existed before the list was written except the two cache buffers -/
 theorem propagator_run (E : PropOps T R) (L : PropLaws E) (o0 : PropObj T R) (dists : T) (h0 : Heap T) (xs : List (PCall T))
-    (s : PropagatorSelf T R × Heap T) (g g' : PRef T) (zs : List (List T)) (hr : PRel E o0 dists h0 s g)
+    (s : PropagatorAttrs T R × Heap T) (g g' : PRef T) (zs : List (List T)) (hr : PRel E o0 dists h0 s g)
     (hv : ∀ x ∈ xs, x.valid o0 h0) (href : runSteps (pRefStep E o0 dists h0) g xs = some (g', zs)) :
     ∃ s' ys, runSteps (pStep E) s xs = some (s', ys) ∧ ys.map PRet.vals = zs ∧ PRel E o0 dists h0 s' g' ∧ PFrame o0 s s' :=
   runSteps_track (pStep E) (pRefStep E o0 dists h0) PRet.vals (PRel E o0 dists h0) (PCall.valid o0 h0) (PFrame o0)
@@ -153,7 +153,7 @@ theorem propagator_run (E : PropOps T R) (L : PropLaws E) (o0 : PropObj T R) (di
 /-- **the buffer `reconstruct` hands out is a new object**: it did not exist before the call (so it is no attribute of the propagator and no
     result handed out earlier), and it holds the reference value -/
 theorem propagator_reconstruct_new_buffer (E : PropOps T R) (L : PropLaws E) (o0 : PropObj T R) (dists : T) (h0 : Heap T)
-    (s : PropagatorSelf T R × Heap T) (g : PRef T) (ph : T) (amp : Option T) (ng gc : Bool) (hr : PRel E o0 dists h0 s g)
+    (s : PropagatorAttrs T R × Heap T) (g : PRef T) (ph : T) (amp : Option T) (ng gc : Bool) (hr : PRel E o0 dists h0 s g)
     (z : List T) (g' : PRef T) (href : pRefStep E o0 dists h0 g (.reconstruct ph amp ng gc) = some (g', z)) :
     ∃ s' v, pStep E s (.reconstruct ph amp ng gc) = some (s', ⟨[v], some s.2.size⟩) ∧ z = [v] ∧ s'.2.get s.2.size = some v ∧
       s.2.get s.2.size = none ∧ PRel E o0 dists h0 s' g' ∧ PFrame o0 s s' := by
